@@ -11,7 +11,7 @@ def nontrivial(line):
     # distinct (matrix, background) pairs inside the property's domain on which the exact tail
     # is enumerated: kinds with finite non-wildcard cells, width <= 8
     f = _fields(line)
-    if f.get("kind") in ("special",):
+    if f.get("kind") in ("special", "empty", "allninf"):   # NaN/inf cells; no finite cell at all (M = 0, only -inf): outside the domain
         return None
     try:
         # `long`: 27..48 columns of integer cells, exact tails on the integer grid of the scores
@@ -37,7 +37,54 @@ def _e2e_stat_obligations():
     return e2e.obligations_stat()
 
 
+def _judged_summary(ctx):
+    """Nothing fails open: the driver appends one line per judged case to c11-judged.log (what the verdict of the case
+    rests on); this step counts them into the evidence notes and removes the file.  Last line per case id wins (the
+    release-profile replay judges the same ids again)."""
+    import os
+    path = os.path.join(os.path.dirname(ctx["driver"]["path"]), "c11-judged.log")
+    try:
+        lines = open(path).read().splitlines()
+        os.remove(path)
+    except OSError:
+        ctx["notes"].append("judged-log: none written (C11_JUDGED_LOG=0 or the driver did not run)")
+        return []
+    last = {}
+    for l in lines:
+        t = l.split(" ")
+        if len(t) >= 2:
+            last[t[0]] = dict(x.split("=", 1) for x in t[1:] if "=" in x)
+    n = len(last)
+    cnt = {}
+
+    def bump(k):
+        cnt[k] = cnt.get(k, 0) + 1
+    probes_j = probes_f = 0
+    out = []
+    for i, f in sorted(last.items()):
+        bump("domain=" + f.get("domain", "?"))
+        if f.get("domain") == "in":
+            bump("build=" + f.get("build", "not-reached"))
+            if "bracket" in f:
+                bump("bracket=" + f["bracket"])
+                a, _, b = f.get("judged", "0/0").partition("/")
+                probes_j += int(a)
+                probes_f += int(b or 0)
+            if f.get("build") == "ok":
+                bump("binary64-table-theorem-applies=" + f.get("f64hyp", "?"))
+                bump("binary64-monotone-theorem-applies=" + ("yes" if f.get("f64hyp") == "yes" and f.get("scalepred") == "yes" else "no"))
+                bump("binary64-monotone-without-scale-hypothesis(f32_matrix_ok_any)=" + ("yes" if f.get("f64hyp") == "yes" and f.get("f32ok") == "yes" else "no"))
+        if "unjudged" in f:
+            out.append(("DIFF", "case %s: bracket probes could not be judged (kind 8)" % i, ""))
+    ctx["notes"].append("what the %d verdicts rest on (nothing is skipped silently): %s; bracket-checked probes %d of %d finite "
+                        "score probes of the in-domain cases (the rest: no exact table within 70000 words / 20000 grid points, "
+                        "or beyond the 2.5e6 budget)"
+                        % (n, ", ".join("%s: %d" % kv for kv in sorted(cnt.items())), probes_j, probes_f))
+    return out
+
+
 SPEC = dict(
+    extra=_judged_summary,
     extra_obligations={"thorough": _e2e_stat_obligations},
     extra_obligations_name="coq/e2e/E2EStat.v: composition of C09, C11, C12/C13, C10, C14 and the scanning pipeline of E2E.v",
     extra_obligations_cmd="make -C coq/e2e (and imported groups) + Print Assumptions audit of LME2E.E2EStat",
